@@ -38,6 +38,19 @@ type isaArch struct {
 	Mw      int      `json:"mw"`
 	Ws      int      `json:"ws"`
 	Natural int      `json:"natural"`
+	Mode    string   `json:"mode"`
+}
+
+type isaProgLine struct {
+	K  string `json:"k"`
+	Op string `json:"op"`
+	Xs []int  `json:"xs"`
+}
+
+type isaProg struct {
+	Ai    int           `json:"ai"`
+	Lines []isaProgLine `json:"lines"`
+	Image [][]int       `json:"image"`
 }
 
 type isaRow struct {
@@ -64,7 +77,8 @@ func init() {
 	add([]string{"in"}, "cmpv")
 	add([]string{"reg", "in", "in"}, "sicv2")
 	add([]string{"reg", "out"}, "r2o r2owa r2owaa")
-	add([]string{"rom"}, "j jc jcmpl jcmpo jo saj ja jcmpa")
+	add([]string{"loc"}, "j jcmpl jcmpo jo saj ja jcmpa")
+	add([]string{"rom"}, "jc")
 	add([]string{"reg", "rom"}, "jgt0f jz ro2r")
 	add([]string{"reg", "ram"}, "m2r r2m")
 	add([]string{"reg", "imm"}, "rset")
@@ -91,7 +105,7 @@ func realArch(a *isaArch) (*procbuilder.Machine, error) {
 	m := new(procbuilder.Machine)
 	ar := &m.Arch
 	ar.Rsize = uint8(a.Rsize)
-	ar.Modes = []string{"ha"}
+	ar.Modes = []string{a.Mode}
 	ar.R, ar.N, ar.M, ar.L, ar.O = uint8(a.R), uint8(a.N), uint8(a.M), uint8(a.L), uint8(a.O)
 	ar.WordSize = uint8(a.Ws)
 	byName := map[string]procbuilder.Opcode{}
@@ -169,9 +183,9 @@ func runC03(r *evid.Run) {
 	if r.Thorough() {
 		cfg = "BMIsaEnc_thorough.cfg"
 	}
-	archPath, rowPath := filepath.Join(scratch, "archs.ndjson"), filepath.Join(scratch, "rows.ndjson")
+	archPath, rowPath, progPath := filepath.Join(scratch, "archs.ndjson"), filepath.Join(scratch, "rows.ndjson"), filepath.Join(scratch, "progs.ndjson")
 	res, err := tlc.Run(tlc.Options{SpecDir: specDir, Module: "BMIsaEnc", Cfg: cfg, Workers: 8, Timeout: 40 * time.Minute,
-		Env: map[string]string{"ARCHS": archPath, "ROWS": rowPath}})
+		Env: map[string]string{"ARCHS": archPath, "ROWS": rowPath, "PROGS": progPath}})
 	if err != nil {
 		r.Inconclusive("tlc: %v", err)
 		return
@@ -250,14 +264,18 @@ func runC03(r *evid.Run) {
 			return nil
 		}
 		accepted++
-		r.Distinct(row.Op + "|" + fmt.Sprint(a.R, a.N, a.M, a.L, a.O, a.Rsize, a.Opbits, a.Ws) + "|" + fmt.Sprint(row.Xs))
+		r.Distinct(row.Op + "|" + fmt.Sprint(a.R, a.N, a.M, a.L, a.O, a.Rsize, a.Opbits, a.Ws, a.Mode) + "|" + fmt.Sprint(row.Xs))
 		mw := m.Arch.Max_word()
 		if !row.Ok {
 			misfitRows++
 			// which field does not fit
 			kind := "?"
 			for i, k := range isaFmt[row.Op] {
-				lim := map[string]int{"reg": 1 << a.R, "in": a.N, "out": a.M, "rom": 1 << a.O, "ram": 1 << a.L, "imm": 1 << a.Rsize}[k]
+				loc := a.O
+				if a.Mode == "vn" || (a.Mode == "hy" && a.L > a.O) {
+					loc = a.L
+				}
+				lim := map[string]int{"reg": 1 << a.R, "in": a.N, "out": a.M, "rom": 1 << a.O, "ram": 1 << a.L, "imm": 1 << a.Rsize, "loc": 1 << loc}[k]
 				if row.Xs[i] >= lim {
 					kind = k
 					break
@@ -309,6 +327,72 @@ func runC03(r *evid.Run) {
 		r.Inconclusive("rows: %v", err)
 		return
 	}
+	// ---- whole programs: comment and blank lines produce no ROM word ---------------------------
+	var progs int64
+	err = readNDJSON(progPath, func(b []byte) error {
+		var pr isaProg
+		if err := json.Unmarshal(b, &pr); err != nil {
+			return err
+		}
+		if len(pr.Image) == 0 {
+			return nil
+		}
+		a, m := archs[pr.Ai-1], machines[pr.Ai-1]
+		var src strings.Builder
+		nc := 0
+		for _, l := range pr.Lines {
+			switch l.K {
+			case "comment":
+				nc++
+				fmt.Fprintf(&src, "# comment %d\n", nc)
+			case "blank":
+				src.WriteString("\n")
+			default:
+				src.WriteString(renderInstr(l.Op, l.Xs) + "\n")
+			}
+		}
+		progs++
+		var got []string
+		func() {
+			defer func() {
+				if e := recover(); e != nil {
+					got = []string{fmt.Sprintf("panic: %v", e)}
+				}
+			}()
+			p, e := m.Arch.Assembler([]byte(src.String()))
+			if e != nil {
+				got = []string{"error: " + e.Error()}
+				return
+			}
+			got = p.Slocs
+		}()
+		var want []string
+		for _, w := range pr.Image {
+			want = append(want, bitsStr(w))
+		}
+		ctx := map[string]interface{}{"arch": a, "source": src.String(), "image": got, "expected_image": want}
+		mw := m.Arch.Max_word()
+		bad := len(got) != len(want)
+		for _, w := range got {
+			if len(w) != mw {
+				bad = true
+			}
+		}
+		if bad {
+			r.Violate("program-image", fmt.Sprintf("a %d-instruction source with comment/blank lines assembles to %d ROM words %q (Max_word %d)", len(want), len(got), got, mw), ctx)
+			return nil
+		}
+		if fmt.Sprint(got) != fmt.Sprint(want) {
+			noteLock(map[string]interface{}{"kind": "program-image", "arch": a, "source": src.String(), "real": got, "spec": want})
+		}
+		r.Distinct("prog|" + src.String() + fmt.Sprint(a.R, a.N, a.M, a.L, a.O, a.Rsize, a.Mode))
+		return nil
+	})
+	if err != nil {
+		r.Inconclusive("progs: %v", err)
+		return
+	}
+	r.Set("programs_replayed", progs)
 	r.Set("rows_replayed", rows)
 	r.Set("traces_validated_against_impl", rows)
 	r.Set("accepted", accepted)
